@@ -532,3 +532,46 @@ RULES.append(r10_one_round_exactly_once)
 from .common import lazy  # noqa: E402
 RULES.append(lazy("sched", "r_assignment_outputs", "completion of a task is inferred from the publication of its last output: every output must be published"))
 RULES.append(lazy("C03", "r6_loop_wiring", "the assignment generator is run to exhaustion, so the bookkeeping of every dispatched assignment is done before the next round"))
+
+
+def r12_one_transfer_per_host(ctx):
+    """C02.R12 / C04: two consumers of a remote dataset assigned in one round to two workers of the same host command ONE transfer:
+    the second assignment sees the host already `preparing` the dataset (build_assignment records that itself) and plans a local load —
+    a second transfer would still be unanswered when the source is purged after the first arrival."""
+    repo = ctx.repo
+    fi = repo.func(f"{ASSIGN}._assignment_heuristic")
+    ctx.analysed(fi.qual)
+    ctx.analysed(f"{ASSIGN}.build_assignment")
+    from .common import model_coll, st
+    T1, T2 = Atom("T1"), Atom("T2")
+    H1, H2 = Atom("H1"), Atom("H2")
+    W1, W2 = worker(H1, "w0"), worker(H1, "w1")
+    D = ds("D", "P")
+    CS = "cascade.scheduler.core.ComponentSchedule"
+    comp = Obj(CS, {"computable": {T1: 0, T2: 0}, "worker2task_distance": {W1: {T1: 5, T2: 5}, W2: {T1: 5, T2: 5}},
+                    "worker2task_values": model_coll(repo, CS, "worker2task_values", [T1, T2]), "weight": 2,
+                    "core": Obj("cascade.scheduler.core.ComponentCore", {"value": {T1: 1, T2: 2}})}, name="comp")
+    env = {"state.components": [comp], "state.idle_workers": {W1, W2}, "state.computable": 2,
+           "state.worker2task_overhead": {W1: {T1: 1, T2: 2}, W2: {T1: 1, T2: 2}},
+           "state.edge_i": {T1: {D}, T2: {D}}, "state.task_o": {T1: set(), T2: set()}, "state.edge_o": {}, "state.outputs": {},
+           "state.worker2ds": ddict(dict, {W1: {}, W2: {}}), "state.host2ds": ddict(dict, {H1: {}, H2: {D: st("available")}}),
+           "state.ds2host": ddict(dict, {D: {H2: st("available")}})}
+    ip = Interp(repo, inline={f"{ASSIGN}.build_assignment"})
+    paths = ip.explore(fi, env=env, args={"tasks": [T1, T2], "workers": [W1, W2], "component_id": 0})
+    ctx.evals(len(paths))
+    if len(paths) != 1 or paths[0].exit[0] != "return":
+        ctx.undecided("C02.R12", loc(fi), f"two consumers / two workers of one host: {[(p.exit[0], vkey(p.exit[1])[:60]) for p in paths][:3]}")
+        return
+    ys = [e.data.get("value") for e in paths[0].effects if e.kind == "yield"]
+    preps = [list(y.fields.get("prep", y.kwargs.get("prep", []))) for y in ys if isinstance(y, Obj)]
+    srcs = [[getattr(x[1], "name", vkey(x[1])) for x in pr] for pr in preps]
+    remote = sum(1 for pr in srcs for h in pr if h == "H2")
+    if len(preps) != 2 or remote != 1 or any(len(pr) != 1 for pr in srcs):
+        ctx.violation("C02.R12", fi.qual, loc(fi), "one transfer per dataset and host in a round",
+                      f"tasks T1, T2 both consume D (available at H2 only) and are assigned to the two workers of H1 in one round: input preparations {srcs}; expected one "
+                      f"transfer from H2 and one local load at H1 — two transfers of the same dataset to one host leave one of them unanswered when the source is purged")
+    else:
+        ctx.ok("C02.R12", loc(fi), f"one round, two consumers on one remote host: preparations {srcs}")
+
+
+RULES.append(r12_one_transfer_per_host)
